@@ -38,6 +38,8 @@ type c07Scn struct {
 	Expect    []string `json:"expect,omitempty"`    // informational: what the model predicts
 	Transport string   `json:"transport,omitempty"` // "" (scripted pipe) | telnet | standard : a built-in transport, see c07real.go
 	OnClose   bool     `json:"onclose,omitempty"`
+	CloseErr  bool     `json:"closeerr,omitempty"` // the transport's Close reports an error (and closes all the same)
+	Meet      string   `json:"meet,omitempty"`     // closes = 2 from two goroutines at once; both are held at this yield point until the other is there too (15 ms bound)
 }
 
 type gate struct {
@@ -52,6 +54,9 @@ type gate struct {
 	at      string
 	atFn    func()
 	atFired bool
+	// meet: the first goroutine reaching this point waits (bounded) until a second one has reached it too
+	meet  string
+	meetN int
 }
 
 func (g *gate) yield(p string) {
@@ -81,6 +86,29 @@ func (g *gate) yield(p string) {
 
 	if fireAt {
 		g.atFn()
+	}
+
+	if g.meet != "" && p == g.meet {
+		g.mu.Lock()
+		g.meetN++
+		first := g.meetN == 1
+		g.mu.Unlock()
+
+		for deadline := time.Now().Add(15 * time.Millisecond); first && time.Now().Before(deadline); {
+			g.mu.Lock()
+			n := g.meetN
+			g.mu.Unlock()
+
+			if n >= 2 {
+				g.mu.Lock()
+				g.waited = true
+				g.mu.Unlock()
+
+				break
+			}
+
+			time.Sleep(40 * time.Microsecond)
+		}
 	}
 
 	if b != "" && p == b {
@@ -138,11 +166,11 @@ func c07One(sc *c07Scn, idx int) verdict {
 		return c07Real(sc, idx)
 	}
 
-	name := fmt.Sprintf("%s/%s/closes=%d/%s/%s<%s/rd=%d/onclose=%v", sc.Driver, sc.State, sc.Closes, sc.CloseBeh, sc.Before, sc.After, sc.ReadDelay, sc.OnClose)
+	name := fmt.Sprintf("%s/%s/closes=%d/%s/%s<%s/rd=%d/onclose=%v/closeerr=%v/meet=%s", sc.Driver, sc.State, sc.Closes, sc.CloseBeh, sc.Before, sc.After, sc.ReadDelay, sc.OnClose, sc.CloseErr, sc.Meet)
 	v := verdict{ID: idx, Variant: name, OK: true, Nontrivial: true}
 	sigBase := fmt.Sprintf("C07:%s:%s:closes=%d:%s", sc.Driver, sc.State, sc.Closes, sc.CloseBeh)
 
-	g := &gate{reached: map[string]bool{}, a: sc.Before, b: sc.After}
+	g := &gate{reached: map[string]bool{}, a: sc.Before, b: sc.After, meet: sc.Meet}
 	curGate.Store((*gate)(nil))
 
 	rd := time.Duration(sc.ReadDelay) * time.Microsecond
@@ -206,6 +234,12 @@ func c07One(sc *c07Scn, idx int) verdict {
 
 	s.pipe.WaitDrained(time.Second)
 	time.Sleep(2 * time.Millisecond)
+
+	if sc.CloseErr {
+		s.pipe.Lock()
+		s.pipe.CloseErr = errors.New("close: connection reset by peer")
+		s.pipe.Unlock()
+	}
 
 	opDone := make(chan error, 1)
 	opStarted := false
@@ -286,7 +320,40 @@ func c07One(sc *c07Scn, idx int) verdict {
 		return fin, pan, cerr
 	}
 
-	for i := 1; i <= sc.Closes && v.OK; i++ {
+	if sc.Meet != "" {
+		// two callers close at the same moment (a watchdog and the owner's deferred Close, say)
+		type res struct {
+			fin bool
+			pan interface{}
+			dur time.Duration
+		}
+
+		rc := make(chan res, sc.Closes)
+
+		for i := 0; i < sc.Closes; i++ {
+			go func() {
+				t0 := time.Now()
+				fin, pan, _ := closeOne()
+				rc <- res{fin, pan, time.Since(t0)}
+			}()
+		}
+
+		for i := 1; i <= sc.Closes; i++ {
+			r := <-rc
+
+			switch {
+			case !v.OK:
+			case !r.fin:
+				fail(&v, sigBase+":concurrent-close-hangs", "one of %d concurrent Closes did not return within 3 s; yield sequence %v", sc.Closes, g.snapshot())
+			case r.pan != nil:
+				fail(&v, sigBase+":concurrent-close-panics", "one of %d concurrent Closes panicked in the caller's goroutine: %v; yield sequence %v", sc.Closes, r.pan, g.snapshot())
+			case r.dur > 1500*time.Millisecond:
+				fail(&v, sigBase+":concurrent-close-slow", "one of %d concurrent Closes needed %v", sc.Closes, r.dur)
+			}
+		}
+	}
+
+	for i := 1; sc.Meet == "" && i <= sc.Closes && v.OK; i++ {
 		t0 := time.Now()
 		fin, pan, _ := closeOne()
 
